@@ -39,3 +39,20 @@ package store
 //@   before call os.Lstat assert looks-for-the-disable-marker: arg0 == pathjoin(dir.Root, disabledName)
 //@   track store scanFiles
 
+
+// ---------------------------------------------------------------- "has this cached file changed?" (C02 C07 C17)
+
+// Sync answers "unchanged" (nil, nil) only when the file on disk has exactly the cached modification
+// time, the cached size and the cached meta data; the client polls, resumes and releases a cached
+// version only on that answer.
+//@ func (*localFile).GetTime inline
+//@ func (*localFile).GetSize inline
+//@ func (*localFile).GetMeta inline
+//@ func (*localFile).GetPath inline
+//@ func (*localFile).GetName inline
+//@ func (*Local).Sync
+//@   on return assert unchanged-means-it-was-looked-at: (err == nil && newFile == nil) ==> called(os.Lstat) && lastarg(os.Lstat, 0) == origFile.GetPath() && lastret(os.Lstat, 1) == nil && called(newLocalFile) && lastret(newLocalFile, 1) == nil && lastarg(newLocalFile, 0) == origFile.GetPath() && lastarg(newLocalFile, 2) == lastret(os.Lstat, 0) && file == lastret(newLocalFile, 0)
+//@   on return assert unchanged-means-same-time: (err == nil && newFile == nil) ==> file.info.ModTime() == origFile.GetTime()
+//@   on return assert unchanged-means-same-size: (err == nil && newFile == nil) ==> file.info.Size() == origFile.GetSize()
+//@   on return assert changed-file-is-returned: (err == nil && newFile != nil) ==> as(newFile, *localFile) == file && file == lastret(newLocalFile, 0)
+//@   modifies nothing
